@@ -539,6 +539,8 @@ def gen_family(rng, force=(), forbid=(), n_masters=None, max_glyphs=14, p_sparse
             glyphs[tgt]["lib"][UFO2FT + "colorLayerMapping"] = [["color1", 0]]
     if "background_layer" in on:
         layers["public.background"] = {names[0]: _simple_glyph(rng, spec, ncontours=1)}
+        if rng.random() < 0.3:
+            layers["empty.layer"] = {}
     if "meta" in on:
         lib["public.openTypeMeta"] = {"dlng": ["en-Latn"], "slng": ["Latn", "Grek"]}
     if "underline_pos" in on:
